@@ -488,6 +488,17 @@ def unit(arg):
         srcs = itertools.chain(lvsgen.schemas('quick'), c12.schemas('quick'))
         if arg.get('families'):
             srcs = list(lvsgen.families()) + list(c12.family_schemas())
+            # a rule expanded into two chains (it embeds a rule defined twice) next to rules that name each chain's pattern with
+            # signers of their own: x/p/f <- {root, k}; k <- y/p/f; y/p/f <- root - no cycle
+            L, P = (lambda v: ['lit', v]), (lambda v: ['pat', v])       # noqa
+            for second_sign in ([], ['#root']):
+                srcs.append([{'id': '#root', 'name': [L('c')], 'cons': [], 'sign': []},
+                             {'id': '#site', 'name': [L('a'), P('x')], 'cons': [], 'sign': []},
+                             {'id': '#site', 'name': [L('b'), P('x')], 'cons': [], 'sign': []},
+                             {'id': '#a', 'name': [['ref', '#site'], L('a')], 'cons': [], 'sign': ['#root']},
+                             {'id': '#b', 'name': [L('a'), P('x'), L('a')], 'cons': [], 'sign': ['#k']},
+                             {'id': '#c', 'name': [L('b'), P('x'), L('a')], 'cons': [], 'sign': second_sign},
+                             {'id': '#k', 'name': [L('c'), L('c'), P('y')], 'cons': [], 'sign': ['#c']}])
             # models with more than 256 and more than 65536 / 255 nodes (node ids in two bytes)
             for width, depth in ((60, 5), (130, 3)):
                 srcs.append([{'id': f'#w{i}', 'name': [['lit', f'w{i}']] + [['lit', 'abcde'[j]] for j in range(depth - 1)] + [['pat', 'x']],
